@@ -295,7 +295,7 @@ def trace_of(res, prop, timeout=300):
 def cex_inputs(trace):
     """the ghost/witness variables and harness choices of a CBMC counterexample trace (last value of each)"""
     vals = {}
-    for m in re.finditer(r'^\s+((?:g_[A-Za-z0-9_\.\[\]l]+)|fs\d|vc\d|n|cap|size|units|used|id|k|off|back|cntgs_exc)=([^ \n]+)', trace, re.M):
+    for m in re.finditer(r'^\s+(?:\d+:\s+)?((?:g_[A-Za-z0-9_\.\[\]l]+)|fs\d|vc\d|n|cap|size|units|used|id|k|off|back|cntgs_exc)=([^ \n]+)', trace, re.M):
         vals[m.group(1)] = m.group(2)
     return vals
 
